@@ -974,11 +974,8 @@ func (view *View) replace(ctx context.Context, flags *option.Flags, fields []par
 		return 0, err
 	}
 
-	replacedRecord := make(map[int]bool, len(records))
+	replacedRecord := make([]bool, len(records))
 	replacedCount := 0
-	for i := range records {
-		replacedRecord[i] = false
-	}
 	replaceMtx := &sync.Mutex{}
 	var replaced = func(idx int) {
 		replaceMtx.Lock()
